@@ -50,6 +50,9 @@ pub enum Sym {
     CancelFuture,
     CancelNone,
     Unknown,
+    /// `completions` at the end of an ASCII text / at a column past the end of a non-ASCII text
+    Completions,
+    CompletionsPastEnd,
 }
 
 #[derive(Clone, Copy, Debug, PartialEq, Eq, Hash, Serialize, Deserialize, PartialOrd, Ord)]
@@ -92,6 +95,7 @@ impl Sym {
             Sym::Disconnect(_) => "disconnect",
             Sym::CancelFuture | Sym::CancelNone => "cancel",
             Sym::Unknown => "noSuchCommand",
+            Sym::Completions | Sym::CompletionsPastEnd => "completions",
         }
     }
     pub fn label(&self) -> String {
@@ -175,6 +179,8 @@ pub fn request(cx: &DapCtx, s: &Sym, seq: i64, thread_id: i64) -> Value {
         Sym::VariablesBad => json!({"variablesReference": 9223372036854775807i64}),
         Sym::Evaluate => json!({"expression": "a", "context": "watch"}),
         Sym::EvaluateMissing => json!({}),
+        Sym::Completions => json!({"text": "co", "column": 3}),
+        Sym::CompletionsPastEnd => json!({"text": "h\u{e9}llo \u{2713}", "column": 9}),
         Sym::Continue => json!({"threadId": thread_id}),
         Sym::ContinueIllTyped => json!({"threadId": "x"}),
         Sym::Next | Sym::StepIn | Sym::StepOut | Sym::Pause => json!({"threadId": thread_id}),
